@@ -30,7 +30,7 @@ m = {
     "hooks": {
         "guard": "verif",
         "enable": "harness + shim files under /verif/harness carry //go:build verif and are injected into /repo packages by overlay (go/packages Config.Overlay for the symbolic engine, go test -overlay -tags verif for native replay); no file of /repo is modified",
-        "baseline_off_cmd": f"cd /repo && {GOENV} go test -vet=off -count=1 -timeout 25m ./... && cd pkg/topology && {GOENV} go test -vet=off -count=1 -timeout 25m ./...",
+        "baseline_off_cmd": f"for m in . ./pkg/topology; do (cd /repo/$m && {GOENV} go test -mod=mod -json -vet=off -count=1 -timeout 25m ./...); done",
         "source_commits": claims.get("hook_commits", []),
         "add_only": True,
     },
